@@ -96,6 +96,7 @@ type QProfile struct {
 	ForceReal    bool // real basic adapters only
 	ForceScript  bool
 	ForceDown    bool
+	ForceUp      bool
 	BodyFaults   bool // enable storage body faults (C02)
 	ShapeFaults  bool // batch-shape faults (C06)
 	TimeFaults   bool // 429 / expiry emphasis (C15)
@@ -111,6 +112,9 @@ type QProfile struct {
 func GenQCfg(t *sim.Tape, p QProfile) QCfg {
 	var c QCfg
 	c.Upload = !p.ForceDown && t.Choose(2, "direction") == 1
+	if p.ForceUp {
+		c.Upload = true
+	}
 	maxObjs := p.MaxObjs
 	if maxObjs == 0 {
 		maxObjs = 6
